@@ -479,3 +479,65 @@ func init() {
 		}
 	}
 }
+
+// slowOutage: the stream fails and the next three attempts to open a new one fail too, with the client's REAL back-off
+// between them (about 0.5 s, 0.75 s, 1.1 s). While the client is busy reconnecting, lookups behave as always: a cached
+// name is served at once, an unknown name gives up at its fetch timeout (50 ms) - nothing the reconnect holds may be
+// in their way for the length of the outage.
+func slowOutage(c *ctx) {
+	w, err := newWorld(worldOpts{ndsNotRequired: true, fetchTimeout: 50 * time.Millisecond})
+	if err != nil {
+		fmt.Println("flow: world:", err)
+		return
+	}
+	hung := false
+	defer func() {
+		if !hung {
+			w.close()
+		}
+	}()
+	_ = w.get(rtOf("cds"), "kept")
+	w.push(mkResp(urlOf("cds"), "v1", "n1", []*anypb.Any{anyStamped("cds", "kept", "kept#1")}))
+	w.ads.mu.Lock()
+	w.ads.failCreate = 3
+	w.ads.mu.Unlock()
+	w.feedErr(errors.New("verif: stream reset"))
+	w.waitFor(func() bool {
+		w.ads.mu.Lock()
+		defer w.ads.mu.Unlock()
+		return w.ads.createAttempts >= 2 // the first attempt has failed: the client is inside its back-off
+	}, 3*time.Second)
+	timed := func(name string) (string, int64) {
+		ch := make(chan string, 1)
+		t0 := time.Now()
+		go func() { ch <- w.get(rtOf("cds"), name) }()
+		select {
+		case r := <-ch:
+			return r, time.Since(t0).Milliseconds()
+		case <-time.After(6 * time.Second):
+			hung = true
+			w.hung = true
+			return "hang", time.Since(t0).Milliseconds()
+		}
+	}
+	missRes, missMs := timed("unknown-during-outage")
+	hitRes, hitMs := "skipped", int64(0)
+	if !hung {
+		hitRes, hitMs = timed("kept")
+	}
+	w.ads.mu.Lock()
+	attempts := w.ads.createAttempts
+	w.ads.mu.Unlock()
+	reconnected := false
+	if !hung {
+		reconnected = w.waitFor(func() bool {
+			w.ads.mu.Lock()
+			defer w.ads.mu.Unlock()
+			return len(w.ads.streams) >= 2
+		}, 8*time.Second)
+		w.settle()
+	}
+	c.count("flow.slow-outage", 1)
+	c.emit(obj{"op": "flow", "kind": "slow-outage", "n": 1, "obs": obj{"miss": missRes, "missMs": missMs, "hit": hitRes, "hitMs": hitMs,
+		"attemptsWhenLookedUp": attempts, "reconnected": reconnected, "fetchTimeoutMs": 50, "wire": []interface{}{}}})
+}
